@@ -173,10 +173,10 @@ func genCases(cfg vlib.Cfg, crossOK bool) []caseSpec {
 					sp.NewSize = 2000
 				}
 			case tDownload:
-				sp.Variant = []string{"complete", "closehalf1", "chunked1", "truncated1", "reset1", "status1", "closefull1"}[i%7]
+				sp.Variant = []string{"p206half1", "closehalf1", "chunked1", "truncated1", "reset1", "status1", "closefull1", "complete", "p204empty1", "p203full1", "p201full1"}[i%11]
 				sp.TmpMount = "same"
 				sp.Signed = i%3 == 2
-				if i%7 == 1 {
+				if i%11 == 1 {
 					// re-download over an existing file, first attempt fails, storage sub-directory is a symlink
 					sp.Layout = "linkdir"
 					if sp.Old == "absent" {
